@@ -46,6 +46,44 @@ def NavInv (root : Node) : Prop :=
     rootOf [root] fuel x = root ∧
     pathOf [root] fuel x = as.reverse ++ [x]
 
+/-! ### `all_children` -/
+
+theorem sizeL_flatMap_children (q : List Node) : sizeL (q.flatMap children) + q.length ≤ sizeL q := by
+  induction q with
+  | nil => simp [sizeL]
+  | cons e q ih =>
+    have := sizeL_children_lt e
+    simp only [List.flatMap_cons, sizeL_append, List.length_cons, sizeL]
+    omega
+
+/-- breadth-first order by levels: all elements of one level (in order), then all their
+    children (in order), and so on -/
+def levelOrder : List Node → List Node
+  | [] => []
+  | e :: q => (e :: q) ++ levelOrder ((e :: q).flatMap children)
+termination_by q => sizeL q
+decreasing_by
+  have := sizeL_flatMap_children (e :: q)
+  simp only [List.length_cons] at this
+  omega
+
+/-- `Reach root x`: `x` is reachable from `root` through `children` (`root` itself included) -/
+inductive Reach (root : Node) : Node → Prop
+  | root : Reach root root
+  | child {p c : Node} : Reach root p → c ∈ children p → Reach root c
+
+/-- `x` is a proper descendant of `root`: a child of something reachable -/
+def Below (root x : Node) : Prop := ∃ p, Reach root p ∧ x ∈ children p
+
+/-- the `all_children` clause of the property: the elements below `root`, level by level,
+    each identity once, the root not among them, nothing else -/
+def AllChildrenSpec (root : Node) : Prop :=
+  allChildren root = levelOrder (children root) ∧
+  ((allChildren root).map Node.id).Nodup ∧
+  (∀ x ∈ allChildren root, x.id ≠ root.id) ∧
+  (∀ x, x ∈ allChildren root ↔ Below root x) ∧
+  (∀ x, x ∈ allChildren root ↔ Reach root x ∧ x ≠ root)
+
 /-- object identities are unique: no node occurs twice in the tree (no aliasing) -/
 def UniqueIds (root : Node) : Prop := (ids root).Nodup
 
